@@ -2,6 +2,7 @@ package main
 
 import (
 	"strconv"
+	"strings"
 )
 
 // Generator for the C16 oracle.
@@ -24,9 +25,10 @@ var c16Pools = map[string][]c16Val{
 }
 
 type c16Gen struct {
-	r     *Rng
-	marks int
-	locs  int
+	r       *Rng
+	marks   int
+	locs    int
+	forceRT string // when set, fn() generates a function of this result type
 }
 
 type c16Sym struct{ N, T string }
@@ -170,6 +172,9 @@ func (g *c16Gen) ifStmt(vars []c16Sym, rt string, depth, size int) *c16Stmt {
 func (g *c16Gen) fn(name string, size int) *c16Fn {
 	r := g.r
 	f := &c16Fn{Name: name, RT: Pick(r, []string{"int", "str", "str", "bool"})}
+	if g.forceRT != "" {
+		f.RT = g.forceRT
+	}
 	n := r.Intn(5)
 	if size == 0 {
 		n = r.Intn(3)
@@ -221,15 +226,16 @@ type c16Prog struct {
 	Extra   []*c16Fn // other definitions the program needs (mutual recursion)
 	F       *c16Fn
 	Mode    string   // direct | stored | passed | passed-colliding
-	ArgForm string   // lit | vars | perm | expr
+	ArgForm string   // lit | vars | perm | expr | nested (some arguments are, or contain, user function calls)
 	Caller  []c16Val // values of the caller's variables named like the parameters (not for lit)
 	Args    []*c16Expr
 	Site    string
-	Lit     c16Val // comparison literal for cmp / letcmp / arg-chk
-	Rec     string // recursion family ("" = generated chain)
-	Few     int    // >0: drop that many trailing arguments
-	Blame   string // set when a two-feature case fails only because of one of them
-	Loop    bool   // the first caller variable is a loop variable and the call sits in that loop's body
+	Lit     c16Val     // comparison literal for cmp / letcmp / arg-chk
+	Rec     string     // recursion family ("" = generated chain)
+	Few     int        // >0: drop that many trailing arguments
+	Blame   string     // set when a two-feature case fails only because of one of them
+	Loop    bool       // the first caller variable is a loop variable and the call sits in that loop's body
+	Prev    []*c16Expr // when set: the same function is called with these arguments first and that value is emitted before
 }
 
 func c16Label(p *c16Prog) string {
@@ -238,7 +244,14 @@ func c16Label(p *c16Prog) string {
 	}
 	a := p.ArgForm == "perm" || p.ArgForm == "expr" || p.Mode == "passed-colliding" || p.Rec == "accumulator"
 	v := p.Site != "out" || p.Rec == "value-consumed"
+	nest := p.ArgForm == "nested" || p.Rec == "through-argument"
 	switch {
+	case p.Rec == "loop":
+		return "loop-in-function-body" // c16Build narrows it when a return is reached inside a loop
+	case nest && v:
+		return "call-in-argument+value-use"
+	case nest:
+		return "argument-is-call-result"
 	case a && v:
 		return "args-scope+value-use"
 	case a:
@@ -247,6 +260,8 @@ func c16Label(p *c16Prog) string {
 		return "call-value-is-return-object"
 	case p.Rec != "":
 		return "recursion-" + p.Rec
+	case p.Prev != nil:
+		return "call-after-earlier-call"
 	case p.Mode == "stored":
 		return "first-class-stored"
 	case p.Mode == "passed":
@@ -294,12 +309,15 @@ func c16Build(p *c16Prog) (cs *c16Case, ok bool) {
 	if p.Few > 0 {
 		args = args[:len(args)-p.Few]
 	}
-	var call *c16Expr
+	var call, prev *c16Expr
 	switch p.Mode {
 	case "stored":
 		tmpl += "<% let h = " + p.F.Name + " %>"
 		top.vars["h"] = top.vars[p.F.Name]
 		call = c16Call("h", args...)
+		if p.Prev != nil {
+			prev = c16Call("h", p.Prev...)
+		}
 	case "passed", "passed-colliding":
 		ap := &c16Fn{Name: "ap", Params: []string{"g"}, RT: p.F.RT}
 		inner := []*c16Expr{}
@@ -314,8 +332,14 @@ func c16Build(p *c16Prog) (cs *c16Case, ok bool) {
 		ap.Body = []*c16Stmt{c16Ret(c16Call("g", inner...))}
 		def(ap)
 		call = c16Call("ap", append([]*c16Expr{c16Var(p.F.Name)}, args...)...)
+		if p.Prev != nil {
+			prev = c16Call("ap", append([]*c16Expr{c16Var(p.F.Name)}, p.Prev...)...)
+		}
 	default:
 		call = c16Call(p.F.Name, args...)
+		if p.Prev != nil {
+			prev = c16Call(p.F.Name, p.Prev...)
+		}
 	}
 	cs = &c16Case{Shape: c16Label(p), Site: p.Site}
 	C := call.Src()
@@ -325,8 +349,17 @@ func c16Build(p *c16Prog) (cs *c16Case, ok bool) {
 		return cs, true
 	}
 	m := &c16Ref{}
+	before := ""
+	if prev != nil { // an earlier call of the same function, its value emitted first
+		pv := m.eval(prev, top)
+		tmpl += "<%= " + prev.Src() + " %>|"
+		before = pv.Render() + "|"
+	}
 	rv := m.eval(call, top)
 	cs.Marks = m.marks
+	if p.Rec == "loop" && m.retInLoop {
+		cs.Shape = "return-inside-loop-does-not-end-function"
+	}
 	eq := strconv.FormatBool(rv == p.Lit)
 	switch p.Site {
 	case "out":
@@ -382,7 +415,7 @@ func c16Build(p *c16Prog) (cs *c16Case, ok bool) {
 	if loopVar != "" {
 		site = "<%= for (" + loopVar + ") in [" + p.Caller[0].Src() + "] { %>" + site + "<% } %>"
 	}
-	cs.Tmpl = tmpl + site
+	cs.Tmpl, cs.Want = tmpl+site, before+cs.Want
 	return cs, true
 }
 
@@ -501,14 +534,9 @@ func c16RunProg(rep *Report, p *c16Prog) {
 		// plain: the same call with literal arguments (the values the parameters should receive), called directly
 		plain := func() c16Prog {
 			q := *p
-			q.ArgForm, q.Mode, q.Loop = "lit", "direct", false
+			q.ArgForm, q.Mode, q.Loop, q.Prev = "lit", "direct", false, nil
 			q.Args = nil
-			env := &c16Env{vars: map[string]c16Val{}}
-			if p.ArgForm != "lit" {
-				for j, n := range p.F.Params {
-					env.vars[n] = p.Caller[j]
-				}
-			}
+			env := c16TopEnv(p)
 			for _, a := range p.Args {
 				q.Args = append(q.Args, c16Lit((&c16Ref{}).eval(a, env)))
 			}
@@ -521,7 +549,7 @@ func c16RunProg(rep *Report, p *c16Prog) {
 			adopt(q)
 		}
 		// 1. reduce a two-feature case to one feature when that still fails
-		if c16Label(p) == "args-scope+value-use" {
+		if strings.HasSuffix(c16Label(p), "+value-use") {
 			q := *p
 			if p.Rec == "" {
 				q = plain()
@@ -534,6 +562,34 @@ func c16RunProg(rep *Report, p *c16Prog) {
 					q = *p
 					q.Blame = "call-value-is-return-object"
 					adopt(q)
+				}
+			}
+		}
+		// 1b. drop the earlier call, then turn arguments that are calls back into the plain values, while it still fails
+		if p.Prev != nil {
+			q := *p
+			q.Prev = nil
+			adopt(q)
+		}
+		if p.ArgForm == "nested" {
+			for i := range p.Args {
+				if !c16HasCall(p.Args[i]) {
+					continue
+				}
+				q := *p
+				q.Args = append([]*c16Expr{}, p.Args...)
+				q.Args[i] = c16Lit((&c16Ref{}).eval(p.Args[i], c16TopEnv(p)))
+				if adopt(q) || p.Args[i].T == "call" {
+					continue
+				}
+				for _, sub := range []*c16Expr{p.Args[i].L, p.Args[i].R} { // lit op call: keep the call, drop the operator
+					if sub != nil && sub.T == "call" {
+						q := *p
+						q.Args = append([]*c16Expr{}, p.Args...)
+						q.Args[i] = sub
+						adopt(q)
+						break
+					}
 				}
 			}
 		}
@@ -637,6 +693,35 @@ func c16Recursion(rep *Report) {
 	ev := &c16Fn{Name: "ev", Params: []string{"n"}, PT: []string{"int"}, RT: "bool", Body: []*c16Stmt{isZero(c16Bool(true)), c16Ret(c16Call("od", dec))}}
 	od := &c16Fn{Name: "od", Params: []string{"n"}, PT: []string{"int"}, RT: "bool", Body: []*c16Stmt{isZero(c16Bool(false)), c16Ret(c16Call("ev", dec))}}
 	progs = append(progs, &c16Prog{Extra: []*c16Fn{od}, F: ev, Rec: "tail"})
+	// recursion through an argument: the recursive call is an operand of another user function call (or of the
+	// function's own call), in the first and in later argument positions
+	xy := func(name, rt string, e *c16Expr) *c16Fn {
+		return &c16Fn{Name: name, Params: []string{"x", "y"}, PT: []string{rt, rt}, RT: rt, Body: []*c16Stmt{c16Ret(e)}}
+	}
+	add := func() *c16Fn { return xy("add", "int", c16Bin("+", c16Var("x"), c16Var("y"))) }
+	sub := func() *c16Fn { return xy("sub", "int", c16Bin("-", c16Var("x"), c16Var("y"))) }
+	join := func() *c16Fn { return xy("join", "str", c16Bin("+", c16Var("x"), c16Var("y"))) }
+	sv := c16Var("s")
+	thru := func(extra *c16Fn, p *c16Prog) *c16Prog {
+		p.Rec = "through-argument"
+		if extra != nil {
+			p.Extra = []*c16Fn{extra}
+		}
+		return p
+	}
+	progs = append(progs,
+		thru(add(), one("sum", "int", "", isZero(c16Int(0)), c16Ret(c16Call("add", n, c16Call("sum", dec))))),
+		thru(add(), one("sum", "int", "", isZero(c16Int(0)), c16Ret(c16Call("add", c16Call("sum", dec), n)))),
+		thru(sub(), one("alt", "int", "", isZero(c16Int(0)), c16Ret(c16Call("sub", c16Bin("*", n, c16Int(10)), c16Call("alt", dec))))),
+		thru(add(), one("fib", "int", "", &c16Stmt{T: "if", E: c16Bin("<", n, c16Int(2)), Then: []*c16Stmt{c16Ret(n)}},
+			c16Ret(c16Call("add", c16Call("fib", dec), c16Call("fib", c16Bin("-", n, c16Int(2))))))),
+		thru(join(), &c16Prog{F: &c16Fn{Name: "build", Params: []string{"n", "s"}, PT: []string{"int", "str"}, RT: "str",
+			Body: []*c16Stmt{isZero(sv), c16Ret(c16Call("join", sv, c16Call("build", dec, c16Bin("+", sv, c16Str("k")))))}}}),
+		thru(nil, &c16Prog{F: &c16Fn{Name: "nest", Params: []string{"n", "s"}, PT: []string{"int", "str"}, RT: "str",
+			Body: []*c16Stmt{isZero(c16Bin("+", sv, c16Str("."))), c16Ret(c16Call("nest", dec, c16Call("nest", c16Int(0), c16Bin("+", sv, c16Str("k")))))}}}),
+		thru(nil, &c16Prog{F: &c16Fn{Name: "tri", Params: []string{"n", "a", "b"}, PT: []string{"int", "str", "str"}, RT: "str",
+			Body: []*c16Stmt{isZero(c16Bin("+", c16Var("a"), c16Var("b"))), c16Ret(c16Call("tri", dec, c16Var("b"), c16Call("tri", c16Int(0), c16Var("a"), c16Str("k"))))}}}),
+	)
 	for k, p := range progs { // every recursive body starts with a mark: it is the fuel (see c16mark)
 		for _, f := range append([]*c16Fn{p.F}, p.Extra...) {
 			f.Body = append([]*c16Stmt{{T: "mark", ID: 100 + k}}, f.Body...)
@@ -682,6 +767,8 @@ func c16Recursion(rep *Report) {
 
 func c16Generate(cfg Config, rep *Report, r *Rng) {
 	c16Recursion(rep)
+	c16Loops(cfg, rep, NewRng(cfg.Seed).Fork(1601))
+	gn := &c16Gen{r: NewRng(cfg.Seed).Fork(1602)} // its own stream: the cases below this line are the same as before
 	g := &c16Gen{r: r}
 	nf := cfg.N(2500, 30000)
 	for i := 0; i < nf && !rep.Full(); i++ {
@@ -749,6 +836,7 @@ func c16Generate(cfg Config, rep *Report, r *Rng) {
 				c16RunProg(rep, p)
 			}
 		}
+		c16Nested(rep, gn, f, tuples, i, cfg.N(8, 5))
 		// too few arguments: must not panic
 		if len(f.Params) > 0 {
 			tu := tuples[i%len(tuples)]
